@@ -23,8 +23,9 @@ def model_check(ctx):
     never = []
     for act in ("Pick01", "Pick02", "Before", "Initial", "FilterBefore", "Upstream", "FilterAfter", "Log",
                 "Boot", "Ask", "Repeat", "Reconfigure", "Finish"):
-        m = re.search(r"<%s line \d+, col \d+ to line \d+, col \d+ of module DnsPipeline>: (\d+):(\d+)" % act, out)
-        if not m or int(m.group(2)) == 0:
+        # TLC prints interim coverage every minute: the LAST report is the final one
+        ms = re.findall(r"<%s line \d+, col \d+ to line \d+, col \d+ of module DnsPipeline>: (\d+):(\d+)" % act, out)
+        if not ms or int(ms[-1][1]) == 0:
             never.append(act)
     if never:
         raise vlib.Inconclusive("vacuous model check: actions never taken: %s" % never)
